@@ -103,18 +103,22 @@ func vfTag(q *genql.Query, cur genql.Map, fo *genql.FunctionOptions, args []any)
 		return nil, fmt.Errorf("vf_tag expects (tag, x)")
 	}
 	tag := fmt.Sprint(args[0])
-	// tags carry the epoch of the case that rendered them ("g1#42"): a fire-and-forget call that
-	// outlives its case must not be attributed to the next one
+	// tags carry the epoch of the run that rendered them ("g1#42"). A fire-and-forget call that
+	// outlives its run must not be attributed to a later one: the epoch is compared, and the
+	// counters of exactly that run (st) are captured, under the lock that injNewRun holds while it
+	// advances the epoch and installs fresh counters.
+	epoch := ""
 	if i := strings.IndexByte(tag, '#'); i >= 0 {
-		stale := tag[i+1:] != strconv.FormatInt(injEpoch.Load(), 10)
-		tag = tag[:i]
-		if stale {
-			return vfValue(tag, args[1]), nil
-		}
+		epoch, tag = tag[i+1:], tag[:i]
 	}
 	inj.mu.Lock()
-	inj.tagCalls[tag]++
-	inj.tagArgs[tag] = append(inj.tagArgs[tag], args[1])
+	if epoch != "" && epoch != strconv.FormatInt(injEpoch.Load(), 10) {
+		inj.mu.Unlock()
+		return vfValue(tag, args[1]), nil
+	}
+	calls, done, argsSeen := inj.tagCalls, inj.tagDone, inj.tagArgs
+	calls[tag]++
+	argsSeen[tag] = append(argsSeen[tag], args[1])
 	g := inj.gate
 	inj.mu.Unlock()
 	rank := -1
@@ -124,12 +128,27 @@ func vfTag(q *genql.Query, cur genql.Map, fo *genql.FunctionOptions, args []any)
 	}
 	v := vfValue(tag, args[1])
 	inj.mu.Lock()
-	inj.tagDone[tag]++
+	done[tag]++
 	inj.mu.Unlock()
 	if rank >= 0 {
 		g.done(rank)
 	}
 	return v, nil
+}
+
+// injNewRun starts a new instrumented run: epoch, counters and gate change together.
+func injNewRun(g *gateCtl) int64 {
+	inj.mu.Lock()
+	defer inj.mu.Unlock()
+	e := injEpoch.Add(1)
+	inj.FailAt, inj.Panic = 0, 0
+	inj.calls.Store(0)
+	inj.failed.Store(0)
+	inj.tagCalls = map[string]int{}
+	inj.tagDone = map[string]int{}
+	inj.tagArgs = map[string][]any{}
+	inj.gate = g
+	return e
 }
 
 // vfValue is the pure function computed by vf_tag: numbers are scaled by a tag-dependent factor,
